@@ -59,6 +59,8 @@ def _dict_writes(fa: FA, var=None):
 
 
 def check(ck):
+    from .memo import check_new_memo_tables
+    ck.run(check_new_memo_tables, ck, "C18.M1", ('configuration', 'storage', 'storage_filesystem', 'storage_memory'))
     R1, R2, R3, R4 = ("C18.R%d" % i for i in range(1, 5))
     ck.rule(R1, "option tables: every documented backend option is read from the configuration and written by to_dict; "
                 "every constructor keyword has a documented key; cluster / repository / environment read and dump the same keys", 10)
